@@ -401,7 +401,8 @@ PLANS["C08"] = {
     "rule": "diff: resizes (13 pixel types, all algorithms, crops, destinations 40..260 per side so that bands exist) and alpha operations are "
             "run in a 1-thread pool and in pools of 2..32 threads (and more threads than rows/columns) with seeded spin/yield jitter at band "
             "starts (H4 hook), results compared bit for bit; strips: 1xN, Nx1, 2xN images with N in {255..257, 4095..4097, 65535..65537, 70000, "
-            "92681, 92682, 131072, 300000} in pools of 2, 7, 32 threads; parts: the band-count functions on 10^6 size pairs incl. 2^k, 2^k+-1 up "
+            "92681, 92682, 131072, 300000} in pools of 2, 7, 32 threads; big: destinations of 4..9 MB with prime-ish extents (Nearest, Bilinear, Lanczos3, "
+            "SuperSampling; up- and down-scaling, crops) in pools of 2, 3, 7 threads; parts: the band-count functions on 10^6 size pairs incl. 2^k, 2^k+-1 up "
             "to 2^32-1 (no panic); containers: cropped, nested and dynamic source/destination views in pools of 2/3/4/8 threads "
             "against plain images in a 1-thread pool (the C13 workload); thorough adds ThreadSanitizer; Miri (Tree Borrows + race detector) runs multi-band row "
             "scenarios (must be clean) and column scenarios (D13b known finding) and column scenarios with the borrow tracker off (must be "
@@ -410,6 +411,8 @@ PLANS["C08"] = {
     "quick": [step("rel+rayon", "firv-threads", 6400), step("dbg+rayon", "firv-threads", 960),
               step("rel+rayon", "firv-threads", 0, sub="strips"), step("dbg+rayon", "firv-threads", 0, sub="strips"),
               step("rel+rayon", "firv-threads", 1000000, sub="parts", shards=4), step("dbg+rayon", "firv-threads", 1000000, sub="parts", shards=4),
+              # large frames (destinations of 4..9 MB, extents that no band count divides)
+              step("rel+rayon", "firv-threads", 56, sub="big"),
               # bands of cropped / nested / dynamic containers: the C13 container workload in pools of 2/3/4/8 threads against 1 thread
               step("rel+rayon", "firv-views", 48000, sub="threads", prop_arg="C13"),
               step("miri+rayon", "firv-threads", 16, sub="miri_h", shards=16, timeout=3000),
@@ -419,6 +422,7 @@ PLANS["C08"] = {
                  step("tsan+rayon", "firv-threads", 2000, timeout=10000),
                  step("rel+rayon", "firv-threads", 0, sub="strips"), step("dbg+rayon", "firv-threads", 0, sub="strips"), step("tsan+rayon", "firv-threads", 0, sub="strips", timeout=10000),
                  step("rel+rayon", "firv-threads", 100000000, sub="parts"), step("dbg+rayon", "firv-threads", 10000000, sub="parts"),
+                 step("rel+rayon", "firv-threads", 1120, sub="big", timeout=7200),
                  step("rel+rayon", "firv-views", 1000000, sub="threads", prop_arg="C13", timeout=7200),
                  step("miri+rayon", "firv-threads", 160, sub="miri_h", shards=16, timeout=20000),
                  step("miri+rayon", "firv-threads", 4, sub="miri_v", shards=4, timeout=3000),
@@ -429,6 +433,7 @@ FLOORS["C08"] = {"quick": [
      lambda o: o["counters"]["multi_band_splits"] >= 10 ** 4 and o["counters"]["bands_executed"] >= 10 ** 5 and len(o["sets"]["splits_axis_parts"]) >= 12
      and any(s.startswith("v") for s in o["sets"]["splits_axis_parts"]) and any(s.startswith("h") for s in o["sets"]["splits_axis_parts"]) and len(o["sets"]["schedules"]) >= 100),
     ("pool sizes 2..32 and beyond seen (>= 20 distinct)", lambda o: len(o["sets"]["pool_sizes"]) >= 20),
+    (">= 50 large frames (destination >= 4 MB)", lambda o: o["counters"]["big_frame_cases"] >= 50 and o["maxima"]["big_frame_dst_bytes"] >= 4.2e6),
     ("all 14 strip lengths incl. 65536 and beyond", lambda o: len([s for s in o["sets"]["strip_lengths"] if int(s) >= 255]) >= 14),
     (">= 10^6 size pairs through the band-count functions, >= 10^5 with area beyond u32", lambda o: o["counters"]["size_pairs"] >= 10 ** 6 and o["counters"]["pairs_with_area_beyond_u32"] >= 10 ** 5),
 ]}
